@@ -1019,7 +1019,7 @@ class ProtocolVersionMajorMinorBase(ProtocolVersionBase):
 class ListParamParsable(object):  # pylint: disable=too-few-public-methods
     item_class = attr.ib(validator=attr.validators.instance_of(type))
     fallback_class = attr.ib(validator=attr.validators.optional(attr.validators.instance_of(type)))
-    separator_class = attr.ib(attr.validators.instance_of(ParsableBase))
+    separator_class = attr.ib(validator=attr.validators.instance_of(type))
     min_byte_num = attr.ib(init=False, default=0)
     max_byte_num = attr.ib(init=False, default=2 ** 16)
     item_num_size = attr.ib(init=False, default=0)
